@@ -42,7 +42,9 @@ def run(ctx):
         ctx.assume("format_tag_value no longer calls parse_tag_value; totality follows from its own body")
     if esc:
         for name, origin in sorted(esc):
-            r1.violation(f"{m.rel}:format_tag_value:escapes:{name}", f"{name} can escape format_tag_value ({origin}); formatting a tag value for display must never fail", m.rel, fn.lineno)
+            # keyed by the raising callee as well: a known finding about json.dumps must not hide an escape from the parser
+            via = origin.split("(")[0].split(" ")[0]
+            r1.violation(f"{m.rel}:format_tag_value:escapes:{name}:via-{via}", f"{name} can escape format_tag_value ({origin}); formatting a tag value for display must never fail", m.rel, fn.lineno)
     else:
         r1.good(f"{m.rel}:format_tag_value:total", "no escaping exception")
 
